@@ -113,10 +113,11 @@ Proof.
 Qed.
 
 (* the inner loop of order / prim_root_of_prime: sound for every fuel *)
-Lemma strip_while_sound n A f : forall fuel g, 0 < g -> 1 < f -> 1 < n -> cong n (A ^ g) 1 ->
+Definition Strip_while_stmt := forall n A f fuel g, 0 < g -> 1 < f -> 1 < n -> cong n (A ^ g) 1 ->
   let g' := strip_while fuel A n f g in 0 < g' /\ (g' | g) /\ cong n (A ^ g') 1.
+Lemma strip_while_sound : Strip_while_stmt.
 Proof.
-  induction fuel as [|k IH]; intros g Hg Hf Hn Hag; cbn [strip_while].
+  intros n A f fuel. induction fuel as [|k IH]; intros g Hg Hf Hn Hag; cbn [strip_while].
   - split; [exact Hg|]. split; [apply Z.divide_refl | exact Hag].
   - destruct (Z.eqb_spec (g mod f) 0) as [Em|Em]; cbn [andb];
       [|split; [exact Hg|]; split; [apply Z.divide_refl | exact Hag]].
